@@ -103,8 +103,10 @@ def _affine(draw, tier):
     nmax = 30 if tier == "quick" else 120
     if exact:
         sig = draw(gs.signals(2, nmax, kinds=["int5", "int40", "grid"], exact_only=True))
-        a = 2.0 ** draw(st.integers(-6, 10))
-        b = float(draw(st.integers(-4000, 4000))) / 8.0
+        # powers of two far from 1 as well: a comparison with an ABSOLUTE tolerance shows at small or large scales
+        k = draw(st.one_of(st.integers(-6, 10), st.integers(-40, 30)))
+        a = 2.0 ** k
+        b = float(draw(st.integers(-4000, 4000))) / 8.0 if -6 <= k <= 10 else 0.0
     else:
         sig = [i / 1000.0 for i in draw(st.lists(st.integers(-10**6, 10**6), min_size=2, max_size=nmax, unique=True))]
         a = draw(st.floats(1e-3, 1e3, allow_nan=False))
